@@ -84,7 +84,7 @@ class VClosure(V):
     def __init__(self, name, env): self.name, self.env = name, env
 
 class VFnItem(V):
-    def __init__(self, name): self.name = name
+    def __init__(self, name, decl=None): self.name, self.decl = name, decl or name
 
 class VFnParam(V):
     def __init__(self, name): self.name = name
@@ -487,6 +487,7 @@ class Interp:
         if L[0] == 'nil': return True
         if L[0] == 'cons': return False
         if L[0] == 'map': return self.list_empty(L[2])
+        if L[0] == 'filter' and self.list_state(L[2]) == 'nil': return True
         v = self.W.decide(('list', L), ['nil', 'cons'])
         return v == 'nil'
 
@@ -712,7 +713,7 @@ class Interp:
 
     def ev_ZstLiteral(self, e, env):
         if 'fn' in e:
-            return VFnItem(canon(e['fn'].get('res') or e['fn']['def']))
+            return VFnItem(canon(e['fn'].get('res') or e['fn']['def']), canon(e['fn']['def']))
         return UNIT
 
     def ev_Match(self, e, env):
@@ -932,6 +933,9 @@ class Interp:
             finally:
                 self.depth -= 1
         if isinstance(f, VFnItem):
+            for key in (f.name, 'trait:' + f.decl, f.decl):
+                if key in self.E.std and f.name not in self.E.specs:
+                    return self.E.std[key](self, args, e or {'loc': loc, 'ty': {'k': 'Other', 's': '?'}}, {})
             return self.E.call_by_name(self, f.name, args, loc)
         if isinstance(f, VFnParam):
             return self.E.apply_fnparam(self, f, args, loc, e)
